@@ -147,6 +147,14 @@ func (c *Ctx) ruleR1() {
 											if _, ok := stack[i].(*ast.ParenExpr); ok {
 												continue
 											}
+											// capacity := cap(c) + k, used only as the size of new channels
+											if as, ok := stack[i].(*ast.AssignStmt); ok && len(as.Lhs) == 1 {
+												if lid, ok := as.Lhs[0].(*ast.Ident); ok {
+													if obj := pk.TypesInfo.ObjectOf(lid); obj != nil && onlyMakeSizes(pk.TypesInfo, f, obj) {
+														okUse = true
+													}
+												}
+											}
 											break
 										}
 									}
@@ -177,6 +185,41 @@ func (c *Ctx) ruleR1() {
 		}
 	}
 	run.Oblige(true)
+}
+
+// onlyMakeSizes: every use of the variable is (part of) the size argument of a make call.
+func onlyMakeSizes(info *types.Info, f *ast.File, obj types.Object) bool {
+	ok, uses := true, 0
+	var stack []ast.Node
+	ast.Inspect(f, func(n ast.Node) bool {
+		if n == nil {
+			stack = stack[:len(stack)-1]
+			return true
+		}
+		stack = append(stack, n)
+		id, isID := n.(*ast.Ident)
+		if !isID || info.Uses[id] != obj {
+			return true
+		}
+		uses++
+		good := false
+		for i := len(stack) - 2; i >= 0; i-- {
+			switch p := stack[i].(type) {
+			case *ast.BinaryExpr, *ast.ParenExpr:
+				continue
+			case *ast.CallExpr:
+				if mid, isM := p.Fun.(*ast.Ident); isM && mid.Name == "make" && len(p.Args) >= 2 {
+					good = true
+				}
+			}
+			break
+		}
+		if !good {
+			ok = false
+		}
+		return true
+	})
+	return ok && uses > 0
 }
 
 // ownedBy: the frame (or its owner chain) is the analysed root.
